@@ -112,6 +112,12 @@ fn sig_matches(pattern: &str, sig: &str) -> bool {
     }
 }
 
+/// Where evidence and replays go: /verif, unless VERIF_OUT_DIR redirects a side run (background
+/// thorough runs from a copied binary must not overwrite the evidence of the registered commands).
+fn out_dir() -> String {
+    std::env::var("VERIF_OUT_DIR").unwrap_or_else(|_| VERIF_DIR.to_string())
+}
+
 /// Write evidence, replays, print verdict lines; returns the process exit code.
 pub fn finish(property: &str, tier: &str, seed: i64, parts: Vec<Part>, wall_s: f64) -> i32 {
     let known = load_known();
@@ -163,7 +169,7 @@ pub fn finish(property: &str, tier: &str, seed: i64, parts: Vec<Part>, wall_s: f
                 }
                 None => {
                     total_viol += 1;
-                    let dir = format!("{}/replays/{}", VERIF_DIR, property);
+                    let dir = format!("{}/replays/{}", out_dir(), property);
                     let _ = std::fs::create_dir_all(&dir);
                     let path = format!("{}/{}.json", dir, sanitize(&v.sig));
                     let _ = std::fs::write(&path, serde_json::to_vec_pretty(replay).unwrap());
@@ -209,8 +215,8 @@ pub fn finish(property: &str, tier: &str, seed: i64, parts: Vec<Part>, wall_s: f
         "wall_s": wall_s,
         "violations": total_viol,
     });
-    let _ = std::fs::create_dir_all(format!("{}/evidence", VERIF_DIR));
-    std::fs::write(format!("{}/evidence/{}.json", VERIF_DIR, property), serde_json::to_vec_pretty(&ev).unwrap()).expect("write evidence");
+    let _ = std::fs::create_dir_all(format!("{}/evidence", out_dir()));
+    std::fs::write(format!("{}/evidence/{}.json", out_dir(), property), serde_json::to_vec_pretty(&ev).unwrap()).expect("write evidence");
     for l in &lines {
         println!("{}", l);
     }
